@@ -687,7 +687,7 @@ func (x *Exec) frameCheck(st *State, fr *Frame, base map[string]Term, baseWM Ter
 		if strings.HasPrefix(comp, "C!") || strings.HasPrefix(comp, "B!") {
 			// cells and closure objects: only fresh ones may be written unless declared
 		}
-		if strings.HasPrefix(comp, "A!") || strings.HasPrefix(comp, "R!") || strings.HasPrefix(comp, "D!") || strings.HasPrefix(comp, "DA!") || strings.HasPrefix(comp, "DR!") || strings.HasPrefix(comp, "L!") || strings.HasPrefix(comp, "MU!") {
+		if strings.HasPrefix(comp, "A!") || strings.HasPrefix(comp, "R!") || strings.HasPrefix(comp, "D!") || strings.HasPrefix(comp, "DA!") || strings.HasPrefix(comp, "DR!") || strings.HasPrefix(comp, "L!") || strings.HasPrefix(comp, "MU!") || strings.HasPrefix(comp, "ONCE!") || strings.HasPrefix(comp, "WG!") {
 			continue // argument logs are covered by their N! counter
 		}
 		ls := byComp[comp]
